@@ -153,7 +153,8 @@ pub fn parse_meta(seed: u64, budget: u64) -> i32 {
         if recs.is_empty() { continue; }
         cases += 1;
         if let Some(what) = check_meta(&recs) {
-            println!("WITNESS {{\"kind\":\"parse_meta\",\"listing\":\"{}\",\"what\":\"{}\"}}", hex(&listing(&recs)), what);
+            let ser: Vec<String> = recs.iter().map(|(p, sz, sc, fr)| format!("{}:{sz}:{sc}:{}", hex(p.as_bytes()), fr.map(|f| f.to_string()).unwrap_or("-".into()))).collect();
+            println!("WITNESS {{\"kind\":\"parse_meta\",\"listing\":\"{}\",\"recs\":\"{}\",\"what\":\"{}\"}}", hex(&listing(&recs)), ser.join(";"), what);
             println!("CASES {cases}");
             return 1;
         }
@@ -167,6 +168,14 @@ pub fn run_parse_meta(w: &str) -> i32 {
     let raw = json_bytes(w, "listing").unwrap_or_default();
     let got = parse_remote_meta_output(&raw);
     println!("listing parses into {} entries: {:?}", got.len(), got);
-    println!("REPRODUCED (see witness `what`)");
-    1
+    // the records the listing was written from travel with the witness: re-run the comparison on the current code
+    let mut recs = vec![];
+    for r in json_str(w, "recs").unwrap_or_default().split(';') {
+        let f: Vec<&str> = r.split(':').collect();
+        if f.len() != 4 { continue; }
+        let p = String::from_utf8_lossy(&crate::unhex(f[0]).unwrap_or_default()).into_owned();
+        recs.push((p, f[1].parse::<u64>().unwrap_or(0), f[2].parse::<i64>().unwrap_or(0), f[3].parse::<u32>().ok()));
+    }
+    if recs.is_empty() { println!("REPRODUCED (see witness `what`; this witness predates self-contained records)"); return 1; }
+    match check_meta(&recs) { Some(what) => { println!("REPRODUCED: {what}"); 1 } None => { println!("not reproduced: the parser returns exactly the records the listing was written from"); 0 } }
 }
